@@ -335,7 +335,7 @@ func syntheticGrids() []*Grid {
 		d      int
 		cell   float64
 		ox, oy float64
-	}{{0, 16, 0, 0}, {1, 8, 0, 0}, {2, 16, 0, 0}, {3, 16, 0, 0}, {1, 16, -16, -16}, {2, 8, 32, 32}, {3, 8, -64, -64}} {
+	}{{0, 16, 0, 0}, {1, 8, 0, 0}, {2, 16, 0, 0}, {3, 16, 0, 0}, {1, 16, -16, -16}, {2, 8, 32, 32}, {3, 8, -64, -64}, {4, 16, 0, 0}} {
 		g, err := newSyntheticGrid(spec.d, spec.cell, spec.ox, spec.oy)
 		if err != nil {
 			panic(err)
@@ -374,4 +374,43 @@ func genDenseComb(r *rand.Rand, w Window) []Pt {
 		ring = append(ring, top[i])
 	}
 	return ring
+}
+
+// genArrowhead: a quadrilateral A, B, X, B2 with B and B2 in the same deepest pixel (two slivers joined in a
+// vertex).  At the deepest level its shell tends to degenerate (walk A..B..X..B..A) while a coarser level may
+// keep a triangle: levels then have different fates within one request.
+func genArrowhead(r *rand.Rand, w Window) []Pt {
+	fine := w
+	fine.Unit = w.G.Res / 16
+	if fine.Unit == 0 {
+		fine.Unit = 1
+	}
+	a, x := fine.randPt(r), fine.randPt(r)
+	b := fine.randPt(r)
+	px := (b[0] - w.G.Ext[0]) / w.G.Res
+	py := (b[1] - w.G.Ext[1]) / w.G.Res
+	b2 := Pt{w.G.Ext[0] + px*w.G.Res + r.Int63n(16)*fine.Unit, w.G.Ext[1] + py*w.G.Res + r.Int63n(16)*fine.Unit}
+	b1 := Pt{w.G.Ext[0] + px*w.G.Res + r.Int63n(16)*fine.Unit, w.G.Ext[1] + py*w.G.Res + r.Int63n(16)*fine.Unit}
+	return []Pt{a, b1, x, b2}
+}
+
+var tinyGridsCache []*Grid
+
+// tinyGrids: synthetic quadtree sets whose pixel measures 1e-5 or 2e-5 units (integer resolution 1e5 / 2e5),
+// with a non-zero origin; coordinates are decimal, so they are used for VALID polygons only (DESIGN 4.2).
+func tinyGrids() []*Grid {
+	if tinyGridsCache == nil {
+		for _, spec := range []struct {
+			d    int
+			cell float64
+		}{{1, 16e-5}, {2, 32e-5}} {
+			g, err := newSyntheticGrid(spec.d, spec.cell, 0, 0)
+			if err != nil {
+				panic(err)
+			}
+			g.Dyadic = false
+			tinyGridsCache = append(tinyGridsCache, g)
+		}
+	}
+	return tinyGridsCache
 }
